@@ -70,6 +70,11 @@ claim("C11", "flow- and path-sensitive ownership typestate over go/ssa (abstract
       "Not covered: cross-goroutine use after release that needs a schedule, user allocators, heap aliasing beyond struct-field places keyed by type and local cells; a program point with more than 1024 distinct abstract path states would be merged (none on this tree).",
       "DESIGN.md §4 C11")
 
+claim("C09", "CFG dominance + per-path emitted-token sequences + nil-flow of comma-ok assertions + fresh-buffer initialisation over go/ssa",
+      "Decides on every path of the response writer: success returns of Write/writeChunk report len(data); each success path of writeChunk appends formatInt(l,16) CRLF data CRLF; the chunked terminator and trailer lines have the RFC 7230 shape and pending body is never written before pending head; every choice of chunked framing removes Content-Length and adds Transfer-Encoding on every path, the fallback needs HTTP/1.1, no Content-Length and a status other than 204/304, Content-Length is emitted only when !chunked; head encoding and framing choice are once-only behind their flags; pointers bound by comma-ok assertions are dereferenced only behind ok (50 sites in nbio/nbhttp/websocket); every Malloc'ed buffer is truncated or filled before it is appended to (24 sites). Three genuine defects found and repaired.",
+      "Not covered: decoding by an independent client (byte-level), the 64 KiB threshold arithmetic, Content-Length versus bytes written, trailer values set after the head was encoded.",
+      "DESIGN.md §4 C09")
+
 PENDING = "check not built yet in this round (static rule tables are being added property by property; see DESIGN.md §4 for the planned obligations)"
 for pid in ["C%02d" % i for i in range(1, 21)]:
     if pid not in PROPS:
